@@ -266,6 +266,47 @@ func genStorm(r *rand.Rand, tmo int64, k8s bool) Case {
 	return Case{Shards: 1, Store: store, Ops: g.ops}
 }
 
+// genScale: the size of a real deployment - a fleet of gateways in front of dozens of upstream clusters, every gateway
+// holding a condition per upstream (hundreds of conditions) - and a mass death within one clean-up period.
+func genScale(r *rand.Rand, tmo int64, wireMode, k8s bool) Case {
+	shards := rig.Pick(r, []int{1, 3, 8})
+	nUps, nInst := 20+r.Intn(26), 6+r.Intn(9)
+	var ops []Op
+	for s := 0; s < shards; s++ {
+		ops = append(ops, Op{Op: "setLeader", S: s, B: true})
+	}
+	m := int64(rig.Pick(r, []int32{100, 5000, 1000000}))
+	var ups, insts []string
+	for k := 0; k < nUps; k++ {
+		u := "cluster-" + string(rune('a'+k/10)) + string(rune('0'+k%10)) + ".example"
+		ups = append(ups, rig.Hex(u))
+		ops = append(ops, Op{Op: "list", U: rig.Hex(u), Schemas: []SchemaJ{{Name: rig.Hex("fa"), Gmif: &m}}})
+	}
+	ops = append(ops, Op{Op: "leaderCheck"})
+	for k := 0; k < nInst; k++ {
+		id := "gw-" + string(rune('a'+k)) + "-" + rig.Pick(r, []string{"1", "10.0.0.7:6443", "Pod_X.y"}) + "-scale"
+		insts = append(insts, rig.Hex(id))
+	}
+	clock := int64(1000)
+	ops = append(ops, Op{Op: "swarm", T: clock, Insts: insts, Ups: ups, Rounds: 1 + r.Intn(2), FC: rig.Hex("fa")})
+	survivor := insts[r.Intn(len(insts))]
+	// some in-flight counts too
+	for k := 0; k < 3; k++ {
+		ops = append(ops, Op{Op: "acquire", U: ups[r.Intn(len(ups))], I: insts[r.Intn(len(insts))], Rid: int64(k + 1), Reqs: []Req{{FC: rig.Hex("fa"), Tokens: 2}}})
+	}
+	clock += tmo + 1500
+	ops = append(ops, Op{Op: "heartbeat", I: survivor, T: clock - 200})
+	ops = append(ops, Op{Op: "cleanupTimeout", Now: clock}, Op{Op: "cleanupUnknown"})
+	ops = append(ops, Op{Op: "report", U: ups[0], I: survivor, Items: []RItem{{Name: rig.Hex("fa"), Kind: "mif", Strategy: "globalAllocate"}}})
+	clock += tmo + 1500
+	ops = append(ops, Op{Op: "cleanupTimeout", Now: clock}, Op{Op: "cleanupUnknown"})
+	store := ""
+	if k8s {
+		store = "k8s"
+	}
+	return Case{Shards: shards, Store: store, Wire: wireMode, Ops: ops}
+}
+
 func genCase(r *rand.Rand, size int, tmo int64, k8s bool) Case {
 	g := &gen{r: r, k8s: k8s, shards: 1 + r.Intn(3), live: map[string]bool{}, lastHB: map[string]int64{}, schema: map[string][]SchemaJ{},
 		rid: map[string]int64{}, tmo: tmo, clock: 1000, kind: map[string]string{}}
